@@ -850,6 +850,10 @@ impl<RW: QueueRW<T>, T> Stream for &FutInnerRecv<RW, T> {
                     let count = self.reader.reader.load_count(Relaxed);
                     let queue = &self.reader.queue;
                     if self.wait.fut_wait(count, queue.wraps_at(count), &queue.writers) {
+                        // A failed attempt on a shared stream may have pinned a slot for a
+                        // moment and made a producer see Full and park although the queue
+                        // is empty; nobody else would wake it
+                        self.prod_wait.notify_all();
                         return Ok(Async::NotReady);
                     }
                 }
